@@ -425,6 +425,14 @@ func init() {
 			x, y := e.sliceBytes(a[0].(SliceVal)), e.sliceBytes(a[1].(SliceVal))
 			return done(Ite(e.valEq(x, y), konst(0), Ite(strLess(x, y, false), konst(-1), konst(1))))
 		},
+		"internal/bytealg.CompareString": func(e *Exec, fr *Frame, fn *ssa.Function, a []Value) (Value, int) {
+			x, y := a[0].(StrVal), a[1].(StrVal)
+			return done(Ite(e.valEq(x, y), konst(0), Ite(strLess(x, y, false), konst(-1), konst(1))))
+		},
+		"strings.Compare": func(e *Exec, fr *Frame, fn *ssa.Function, a []Value) (Value, int) {
+			x, y := a[0].(StrVal), a[1].(StrVal)
+			return done(Ite(e.valEq(x, y), konst(0), Ite(strLess(x, y, false), konst(-1), konst(1))))
+		},
 		"internal/bytealg.MakeNoZero": func(e *Exec, fr *Frame, fn *ssa.Function, a []Value) (Value, int) {
 			n := int(e.concretize(termArg(a[0])))
 			b := e.newBacking(types.Typ[types.Uint8], n)
